@@ -838,7 +838,193 @@ func pToken(args []string) string {
 	return "ok"
 }
 
+// ---------- sequences of signing operations on one structure ----------
+
+// the scheme SetSignature uses for a key when signAlgo is 0 (0: none, signing must fail)
+func detectedScheme(k crypto.Signer) cbnt.Algorithm {
+	switch v := k.(type) {
+	case *rsa.PrivateKey:
+		switch v.Size() * 8 {
+		case 2048:
+			return cbnt.AlgRSASSA
+		case 3072:
+			return cbnt.AlgRSAPSS
+		}
+		return 0
+	case *ecdsa.PrivateKey:
+		return cbnt.AlgECDSA
+	case *sm2.PrivateKey:
+		return cbnt.AlgSM2
+	}
+	return 0
+}
+
+func schemeDefaultHash(sc cbnt.Algorithm) cbnt.Algorithm {
+	switch sc {
+	case cbnt.AlgRSAPSS:
+		return cbnt.AlgSHA384
+	case cbnt.AlgRSASSA:
+		return cbnt.AlgSHA256
+	case cbnt.AlgECDSA:
+		return cbnt.AlgSHA512
+	}
+	return cbnt.AlgSM3
+}
+
+// p_resign container seed nsteps {keyspec scheme hash msg roundtrip}
+// One structure (sig = cbnt.Signature, ks = cbnt.KeySignature, km = key manifest, bpm = PMSE
+// element of a boot policy manifest) is signed several times in a row, optionally written and
+// read back in between. After every step: what the library just signed verifies over the same
+// data, and the recorded scheme / hash / sizes / key are the ones that were used.
+func pResign(args []string) string {
+	container := args[0]
+	r := NewRng(UnN(args[1]))
+	n := int(UnN(args[2]))
+	a := args[3:]
+	var km cbntkey.Manifest
+	var bpm cbntbootpolicy.Manifest
+	var ksv cbnt.KeySignature
+	var sg cbnt.Signature
+	ksOf := func() *cbnt.KeySignature {
+		switch container {
+		case "km":
+			return &km.KeyAndSignature
+		case "bpm":
+			return &bpm.PMSE.KeySignature
+		}
+		return &ksv
+	}
+	for step := 0; step < n; step++ {
+		priv := parsePriv(a[0])
+		scheme, ha, msg, roundtrip := cbnt.Algorithm(UnN(a[1])), cbnt.Algorithm(UnN(a[2])), UnH(a[3]), a[4] == "1"
+		a = a[5:]
+		cbnt.RandReader = rngReader{r.Fork(uint64(step))}
+		where := fmt.Sprintf("step %d (%s, scheme=%v hash=%v)", step+1, container, scheme, ha)
+		var err error
+		switch container {
+		case "sig":
+			err = sg.SetSignature(scheme, ha, priv, exact(msg))
+		case "ks":
+			if scheme == 0 && ha == 0 {
+				err = ksv.SetSignatureAuto(priv, exact(msg))
+			} else {
+				err = ksv.SetSignature(scheme, ha, priv, exact(msg))
+			}
+		case "km":
+			err = km.SetSignature(scheme, ha, priv, exact(msg))
+		case "bpm":
+			err = bpm.PMSE.SetSignature(scheme, ha, priv, exact(msg))
+		}
+		if err != nil {
+			return "FAIL sign-rejected: " + where + ": " + err.Error()
+		}
+		usedScheme := scheme
+		if usedScheme == 0 {
+			usedScheme = detectedScheme(priv)
+		}
+		usedHash := ha
+		if usedHash.IsNull() {
+			usedHash = schemeDefaultHash(usedScheme)
+		}
+		cur := &sg
+		if container != "sig" {
+			cur = &ksOf().Signature
+		}
+		if cur.SigScheme != usedScheme {
+			return fmt.Sprintf("FAIL resign-fields: %s: recorded scheme %v, used %v", where, cur.SigScheme, usedScheme)
+		}
+		if cur.HashAlg != usedHash {
+			return fmt.Sprintf("FAIL resign-stale-hash: %s: recorded hash %v, the data was signed with %v", where, cur.HashAlg, usedHash)
+		}
+		if cur.Version != 0x10 {
+			return "FAIL resign-fields: " + where + ": signature version"
+		}
+		if container == "km" && km.PubKeyHashAlg != usedHash {
+			return fmt.Sprintf("FAIL resign-stale-hash: %s: PubKeyHashAlg %v, used %v", where, km.PubKeyHashAlg, usedHash)
+		}
+		// the key stored next to the signature is the signer's
+		if container != "sig" {
+			var want cbnt.Key
+			if err := want.SetPubKey(priv.Public()); err != nil {
+				return "FAIL key-roundtrip: " + err.Error()
+			}
+			k := &ksOf().Key
+			if k.KeyAlg != want.KeyAlg || k.KeySize != want.KeySize || k.Version != 0x10 || !bytes.Equal(k.Data, want.Data) || ksOf().Version != 0x10 {
+				return "FAIL resign-fields: " + where + ": stored key is not the signer's"
+			}
+		}
+		// what was just signed verifies over the same data
+		switch k := priv.(type) {
+		case *rsa.PrivateKey:
+			if int(cur.KeySize.InBytes()) != k.Size() || len(cur.Data) != k.Size() {
+				return "FAIL resign-fields: " + where + ": signature size"
+			}
+			if container == "sig" {
+				sd, err := sg.SignatureData()
+				if err != nil {
+					return "FAIL resign-verify: " + where + ": " + err.Error()
+				}
+				err = sd.Verify(&k.PublicKey, sg.HashAlg, msg)
+				if err != nil {
+					return "FAIL resign-verify: " + where + ": the library's own signature does not verify over the same data: " + err.Error()
+				}
+			} else if err := ksOf().Verify(msg); err != nil {
+				return "FAIL resign-verify: " + where + ": the library's own signature does not verify over the same data: " + err.Error()
+			}
+			if container != "sig" && len(msg) > 0 && ksOf().Verify(flipped(msg, r.Intn(len(msg)*8))) == nil {
+				return "FAIL data-bit-accepted: " + where
+			}
+		case *ecdsa.PrivateKey:
+			sd, err := cur.SignatureData()
+			if err != nil || len(cur.Data) != 64 || cur.KeySize.InBits() != 256 {
+				return "FAIL ecdsa-fixed-width: " + where
+			}
+			es := sd.(cbnt.SignatureECDSA)
+			if !ecdsa.Verify(&k.PublicKey, hashOf(cur.HashAlg, msg), es.R, es.S) {
+				return "FAIL resign-verify: " + where + ": stored ECDSA signature does not verify under the standard algorithm with the recorded hash"
+			}
+		case *sm2.PrivateKey:
+			sd, err := cur.SignatureData()
+			if err != nil || len(cur.Data) != 64 {
+				return "FAIL ecdsa-fixed-width: " + where
+			}
+			ss := sd.(cbnt.SignatureSM2)
+			if !sm2.Sm2Verify(&k.PublicKey, msg, sm2UID, ss.R, ss.S) {
+				return "FAIL resign-verify: " + where + ": stored SM2 signature does not verify"
+			}
+		}
+		// write and read back (RSA signatures only: the wire size of Signature.Data is KeySize/8)
+		if _, isRSA := priv.(*rsa.PrivateKey); roundtrip && isRSA {
+			var buf bytes.Buffer
+			if container == "sig" {
+				if _, err := sg.WriteTo(&buf); err != nil {
+					return "FAIL resign-roundtrip: write: " + err.Error()
+				}
+				var back cbnt.Signature
+				if _, err := back.ReadFrom(bytes.NewReader(buf.Bytes())); err != nil {
+					return "FAIL resign-roundtrip: read: " + err.Error()
+				}
+				sg = back
+			} else {
+				if _, err := ksOf().WriteTo(&buf); err != nil {
+					return "FAIL resign-roundtrip: write: " + err.Error()
+				}
+				var back cbnt.KeySignature
+				if _, err := back.ReadFrom(bytes.NewReader(buf.Bytes())); err != nil {
+					return "FAIL resign-roundtrip: read: " + err.Error()
+				}
+				if err := back.Verify(msg); err != nil {
+					return "FAIL resign-roundtrip: " + where + ": read back signature does not verify: " + err.Error()
+				}
+				*ksOf() = back
+			}
+		}
+	}
+	return "ok"
+}
+
 func registerOracles() {
+	Register("p_resign", pResign)
 	Register("p_sign_verify", pSignVerify)
 	Register("p_bg_sign_verify", pBgSignVerify)
 	Register("p_key_roundtrip", pKeyRoundtrip)
